@@ -114,10 +114,14 @@ def build() -> Check:
                     if sub is not None and all(e.guards for e in sub):
                         can_be_empty = True
                 if can_be_empty:
-                    degenerate = nm is not None and nm.name == "ErrorObject"
-                    ck.ob("R3.empty-dict-is-not-absence", fn_construct(c.methods["from_dict"]), r.presence != "truthy" or degenerate,
-                          f"{c.name}.{f.name}: the writer can emit an empty dictionary under {r.key!r} ({nm.name if nm else 'dict'} with no optional field set) but the reader "
-                          f"tests truthiness: the object comes back as None", cell=f.name)
+                    if nm is not None and nm.name == "ErrorObject":
+                        # an error object with no field set: same defect, own rule id (it cannot be produced by the SDK's own ErrorObject.from_exception)
+                        ck.ob("R3.field-less-error-object-is-not-absence", fn_construct(c.methods["from_dict"]), r.presence != "truthy",
+                              f"{c.name}.{f.name}: ErrorObject(None, None, None, None) is written as {{}} under {r.key!r} and the reader tests truthiness: it comes back as None", cell=f.name)
+                    else:
+                        ck.ob("R3.empty-dict-is-not-absence", fn_construct(c.methods["from_dict"]), r.presence != "truthy",
+                              f"{c.name}.{f.name}: the writer can emit an empty dictionary under {r.key!r} ({nm.name if nm else 'dict'} with no optional field set) but the reader "
+                              f"tests truthiness: the object comes back as None", cell=f.name)
                 ck.ob("R3.no-walrus-rebinding", fn_construct(c.methods["from_dict"]), not (r.shadow and r.presence == "truthy"),
                       f"{c.name}.{f.name}: `if {f.name} := data.get(...)` re-binds the variable passed to the constructor; a falsy wire value ({{}}) leaks in raw", cell=f.name)
             # nested coverage: every field of an inline-written nested model is written too
